@@ -7,5 +7,6 @@ CONSTANTS
   AsFound_ExclusionBySubstring = FALSE
   AsFound_DecorativeUntested = FALSE
   AsFound_DecorativeExcluded = FALSE
+  AsFound_TimeAxisFrozen = FALSE
 POSTCONDITION AllConsumed
 CHECK_DEADLOCK FALSE
